@@ -452,6 +452,261 @@ theorem compareDecimals_eqLen (a b : List Nat) (hl : a.length = b.length) (ha : 
           have h1 : decide (toI8 fa > toI8 fb) = true := by simp only [decide_eq_true_eq]; omega
           rw [h1]; symm; simp only [decide_eq_true_eq]; omega
 
+theorem beNat_append (p q : List Nat) : beNat (p ++ q) = beNat p * 256 ^ q.length + beNat q := by
+  induction p with
+  | nil => simp [beNat]
+  | cons x xs ih =>
+    simp only [List.cons_append, beNat, ih, List.length_append, Nat.pow_add, Nat.add_mul, Nat.mul_assoc, Nat.add_assoc]
+
+theorem beNat_all_zero (p : List Nat) (h : p.any (fun x => x != 0) = false) : beNat p = 0 := by
+  induction p with
+  | nil => rfl
+  | cons x xs ih =>
+    simp only [List.any_cons, Bool.or_eq_false_iff, bne_eq_false_iff_eq] at h
+    simp [beNat, h.1, ih h.2]
+
+theorem beNat_pos_of_any (p : List Nat) (h : p.any (fun x => x != 0) = true) : 1 ≤ beNat p := by
+  induction p with
+  | nil => simp at h
+  | cons x xs ih =>
+    simp only [List.any_cons, Bool.or_eq_true, bne_iff_ne, ne_eq] at h
+    simp only [beNat]
+    by_cases hx : x = 0
+    · have := ih (by rcases h with h | h; exact absurd hx h; exact h); omega
+    · have h1 : 1 ≤ 256 ^ xs.length := Nat.pow_pos (by decide)
+      have : 1 * 256 ^ xs.length ≤ x * 256 ^ xs.length := Nat.mul_le_mul_right _ (by omega)
+      omega
+
+theorem beNat_all_ff (p : List Nat) (h : p.any (fun x => x != 255) = false) : beNat p + 1 = 256 ^ p.length := by
+  induction p with
+  | nil => rfl
+  | cons x xs ih =>
+    simp only [List.any_cons, Bool.or_eq_false_iff, bne_eq_false_iff_eq] at h
+    have := ih h.2
+    simp only [beNat, h.1, List.length_cons, Nat.pow_succ]
+    omega
+
+theorem beNat_not_all_ff (p : List Nat) (hp : Bytes p) (h : p.any (fun x => x != 255) = true) :
+    beNat p + 2 ≤ 256 ^ p.length := by
+  induction p with
+  | nil => simp at h
+  | cons x xs ih =>
+    have hx : x < 256 := hp x (by simp)
+    have hxs : Bytes xs := fun y hy => hp y (by simp [hy])
+    have hB := beNat_lt xs hxs
+    have h1 : 1 ≤ 256 ^ xs.length := Nat.pow_pos (by decide)
+    simp only [List.any_cons, Bool.or_eq_true, bne_iff_ne, ne_eq] at h
+    simp only [beNat, List.length_cons, Nat.pow_succ]
+    by_cases hx255 : x = 255
+    · have := ih hxs (by rcases h with h | h; exact absurd hx255 h; exact h)
+      subst hx255; omega
+    · have : x * 256 ^ xs.length ≤ 254 * 256 ^ xs.length := Nat.mul_le_mul_right _ (by omega)
+      omega
+
+/-- the value as unsigned value minus the sign weight -/
+theorem decimalValue_eq (f : Nat) (t : List Nat) :
+    decimalValue (f :: t) = ((beNat (f :: t) : Nat) : Int) - (if 128 ≤ f then ((256 ^ (t.length + 1) : Nat) : Int) else 0) := by
+  show (if 128 ≤ f then ((beNat (f :: t) : Nat) : Int) - (256 : Int) ^ (f :: t).length else ((beNat (f :: t) : Nat) : Int)) = _
+  by_cases h : 128 ≤ f
+  · rw [if_pos h, if_pos h, Int.natCast_pow]; rfl
+  · rw [if_neg h, if_neg h]; exact (Int.sub_zero _).symm
+
+theorem toI8_neg_iff (f : Nat) (hf : f < 256) : toI8 f < 0 ↔ 128 ≤ f := by
+  unfold toI8; split <;> omega
+
+/-- arithmetic core, longer operand `Y = lead ++ tail` against shorter `X` (|tail| = |X|), same sign:
+value of `Y` relative to `X` -/
+theorem longer_shorter (fy fx : Nat) (ty tx : List Nat) (hy : Bytes (fy :: ty)) (hx : Bytes (fx :: tx))
+    (hs : 128 ≤ fy ↔ 128 ≤ fx) (hlen : tx.length < ty.length) :
+    let k := (ty.length + 1) - (tx.length + 1)
+    let lead := (fy :: ty).take k
+    let tail := (fy :: ty).drop k
+    let ext : Nat := if toI8 fy < 0 then DEC_NEG_EXT else 0
+    tail.length = tx.length + 1 ∧
+    (lead.any (fun x => x != ext) = true →
+      (if 128 ≤ fy then decimalValue (fy :: ty) < decimalValue (fx :: tx)
+       else decimalValue (fx :: tx) < decimalValue (fy :: ty))) ∧
+    (lead.any (fun x => x != ext) = false →
+      decimalValue (fy :: ty) - decimalValue (fx :: tx) = ((beNat tail : Nat) : Int) - ((beNat (fx :: tx) : Nat) : Int)) := by
+  intro k lead tail ext
+  have hfy : fy < 256 := hy fy (by simp)
+  have hk : k = ty.length - tx.length := by omega
+  have htl : tail.length = tx.length + 1 := by simp [tail, List.length_drop]; omega
+  have hll : lead.length = k := by simp [lead, List.length_take]; omega
+  have hsplit : beNat (fy :: ty) = beNat lead * 256 ^ (tx.length + 1) + beNat tail := by
+    have := beNat_append lead tail
+    rw [List.take_append_drop, htl] at this
+    exact this
+  have hpow : 256 ^ (ty.length + 1) = 256 ^ k * 256 ^ (tx.length + 1) := by
+    rw [← Nat.pow_add]; congr 1; omega
+  have hlead : Bytes lead := fun b hb => hy b (List.mem_of_mem_take hb)
+  have htail : Bytes tail := fun b hb => hy b (List.mem_of_mem_drop hb)
+  have hT := beNat_lt tail htail
+  have hX := beNat_lt (fx :: tx) hx
+  rw [htl] at hT
+  simp only [List.length_cons] at hX
+  have hQ : 1 ≤ 256 ^ (tx.length + 1) := Nat.pow_pos (by decide)
+  refine ⟨htl, ?_, ?_⟩
+  · intro hany
+    rw [decimalValue_eq, decimalValue_eq, hsplit, hpow]
+    by_cases hneg : 128 ≤ fy
+    · have hnx : 128 ≤ fx := hs.1 hneg
+      have hext : ext = 255 := by simp [ext, (toI8_neg_iff fy hfy).2 hneg, DEC_NEG_EXT]
+      rw [hext] at hany
+      have h2 := beNat_not_all_ff lead hlead hany
+      rw [hll] at h2
+      have h3 : beNat lead * 256 ^ (tx.length + 1) + 2 * 256 ^ (tx.length + 1) ≤ 256 ^ k * 256 ^ (tx.length + 1) := by
+        have := Nat.mul_le_mul_right (256 ^ (tx.length + 1)) h2
+        rwa [Nat.add_mul] at this
+      simp only [hneg, hnx, if_true]
+      generalize 256 ^ (tx.length + 1) = Q at *
+      generalize beNat lead * Q = LQ at *
+      generalize 256 ^ k * Q = KQ at *
+      omega
+    · have hnx : ¬ 128 ≤ fx := fun h => hneg (hs.2 h)
+      have hext : ext = 0 := by
+        have : ¬ toI8 fy < 0 := fun h => hneg ((toI8_neg_iff fy hfy).1 h)
+        simp [ext, this]
+      rw [hext] at hany
+      have h2 := beNat_pos_of_any lead hany
+      have h3 : 256 ^ (tx.length + 1) ≤ beNat lead * 256 ^ (tx.length + 1) := by
+        have := Nat.mul_le_mul_right (256 ^ (tx.length + 1)) h2
+        rwa [Nat.one_mul] at this
+      simp only [hneg, hnx, if_false]
+      generalize 256 ^ (tx.length + 1) = Q at *
+      generalize beNat lead * Q = LQ at *
+      omega
+  · intro hall
+    rw [decimalValue_eq, decimalValue_eq, hsplit, hpow]
+    by_cases hneg : 128 ≤ fy
+    · have hnx : 128 ≤ fx := hs.1 hneg
+      have hext : ext = 255 := by simp [ext, (toI8_neg_iff fy hfy).2 hneg, DEC_NEG_EXT]
+      rw [hext] at hall
+      have h2 := beNat_all_ff lead hall
+      rw [hll] at h2
+      have h3 : beNat lead * 256 ^ (tx.length + 1) + 256 ^ (tx.length + 1) = 256 ^ k * 256 ^ (tx.length + 1) := by
+        rw [← h2, Nat.add_mul, Nat.one_mul]
+      simp only [hneg, hnx, if_true]
+      generalize 256 ^ (tx.length + 1) = Q at *
+      generalize beNat lead * Q = LQ at *
+      generalize 256 ^ k * Q = KQ at *
+      omega
+    · have hnx : ¬ 128 ≤ fx := fun h => hneg (hs.2 h)
+      have hext : ext = 0 := by
+        have : ¬ toI8 fy < 0 := fun h => hneg ((toI8_neg_iff fy hfy).1 h)
+        simp [ext, this]
+      rw [hext] at hall
+      have h2 := beNat_all_zero lead hall
+      simp only [hneg, hnx, if_false, h2, Nat.zero_mul, Nat.zero_add]
+      omega
+
+theorem decide_eq_decide_of_iff {p q : Prop} [Decidable p] [Decidable q] (h : p ↔ q) : decide p = decide q := by
+  cases hp : decide p <;> cases hq : decide q <;> simp_all
+
+/-- **`compare_greater_byte_array_decimals` is the comparison of the two's-complement values,
+for operands of any (non-zero) lengths** -/
+theorem compareDecimals_full (fa fb : Nat) (ta tb : List Nat) (ha : Bytes (fa :: ta)) (hb : Bytes (fb :: tb)) :
+    compareGreaterByteArrayDecimals (fa :: ta) (fb :: tb) = decimalGt (fa :: ta) (fb :: tb) := by
+  have hfa : fa < 256 := ha fa (by simp)
+  have hfb : fb < 256 := hb fb (by simp)
+  by_cases hl : ta.length = tb.length
+  · exact compareDecimals_eqLen (fa :: ta) (fb :: tb) (by simp [hl]) ha hb
+  · unfold decimalGt
+    simp only [compareGreaterByteArrayDecimals, DEC_SIGN_MASK, signMask fa hfa, signMask fb hfb]
+    have hl' : ¬ (ta.length + 1 = tb.length + 1) := by omega
+    by_cases hs : (128 ≤ fa ↔ 128 ≤ fb)
+    · -- same sign
+      have hc : ¬ ((if 128 ≤ fa then 128 else 0) ≠ (if 128 ≤ fb then 128 else 0) ∨ (ta.length + 1 = tb.length + 1 ∧ fa ≠ fb)) := by
+        rintro (h | h)
+        · apply h; by_cases h1 : 128 ≤ fa
+          · simp [h1, hs.1 h1]
+          · have : ¬ 128 ≤ fb := fun h2 => h1 (hs.2 h2)
+            simp [h1, this]
+        · exact hl' h.1
+      rw [if_neg hc]
+      simp only [hl', ne_eq, not_false_eq_true, if_true]
+      by_cases hlong : ta.length + 1 > tb.length + 1
+      · -- a longer
+        obtain ⟨htl, h1, h2⟩ := longer_shorter fa fb ta tb ha hb hs (by omega)
+        simp only [hlong, if_true, decide_true]
+        cases hany : ((fa :: ta).take (ta.length + 1 - (tb.length + 1))).any (fun x => x != if toI8 fa < 0 then DEC_NEG_EXT else 0) with
+        | true =>
+          have := h1 hany
+          simp only [if_true]
+          by_cases hneg : 128 ≤ fa
+          · simp only [hneg, if_true] at this
+            simp only [(toI8_neg_iff fa hfa).2 hneg, decide_true, if_true, Bool.not_true]
+            symm; simp only [decide_eq_false_iff_not]; omega
+          · simp only [hneg, if_false] at this
+            have hn : ¬ toI8 fa < 0 := fun h => hneg ((toI8_neg_iff fa hfa).1 h)
+            simp only [hn, decide_false, Bool.false_eq_true, if_false]
+            symm; simp only [decide_eq_true_eq]; omega
+        | false =>
+          have hd := h2 hany
+          simp only [Bool.false_eq_true, if_false, sliceGt]
+          have hiff := lexLt_iff_beNat (fb :: tb) ((fa :: ta).drop (ta.length + 1 - (tb.length + 1)))
+            (by simp only [List.length_cons]; omega) hb (fun x hx => ha x (List.mem_of_mem_drop hx))
+          rw [Bool.eq_iff_iff, hiff]
+          simp only [decide_eq_true_eq]
+          omega
+      · -- b longer
+        have hsh : tb.length > ta.length := by omega
+        obtain ⟨htl, h1, h2⟩ := longer_shorter fb fa tb ta hb ha hs.symm (by omega)
+        have hnl : ¬ (ta.length + 1 > tb.length + 1) := hlong
+        have hexteq : (if toI8 fb < 0 then DEC_NEG_EXT else 0) = (if toI8 fa < 0 then DEC_NEG_EXT else 0) := by
+          by_cases hneg : 128 ≤ fa
+          · simp [(toI8_neg_iff fa hfa).2 hneg, (toI8_neg_iff fb hfb).2 (hs.1 hneg)]
+          · have hn : ¬ toI8 fa < 0 := fun h => hneg ((toI8_neg_iff fa hfa).1 h)
+            have hn' : ¬ toI8 fb < 0 := fun h => hneg (hs.2 ((toI8_neg_iff fb hfb).1 h))
+            simp [hn, hn']
+        rw [hexteq] at h1 h2
+        simp only [hnl, if_false, decide_false]
+        cases hany : ((fb :: tb).take (tb.length + 1 - (ta.length + 1))).any (fun x => x != if toI8 fa < 0 then DEC_NEG_EXT else 0) with
+        | true =>
+          have := h1 hany
+          simp only [if_true]
+          by_cases hneg : 128 ≤ fa
+          · simp only [hs.1 hneg, if_true] at this
+            simp only [(toI8_neg_iff fa hfa).2 hneg, decide_true, if_true, Bool.not_false]
+            symm; simp only [decide_eq_true_eq]; omega
+          · have hnb : ¬ 128 ≤ fb := fun h => hneg (hs.2 h)
+            simp only [hnb, if_false] at this
+            have hn : ¬ toI8 fa < 0 := fun h => hneg ((toI8_neg_iff fa hfa).1 h)
+            simp only [hn, decide_false, Bool.false_eq_true, if_false]
+            symm; simp only [decide_eq_false_iff_not]; omega
+        | false =>
+          have hd := h2 hany
+          simp only [Bool.false_eq_true, if_false, sliceGt]
+          have hiff := lexLt_iff_beNat ((fb :: tb).drop (tb.length + 1 - (ta.length + 1))) (fa :: ta)
+            (by simp only [List.length_cons]; omega) (fun x hx => hb x (List.mem_of_mem_drop hx)) ha
+          rw [Bool.eq_iff_iff, hiff]
+          simp only [decide_eq_true_eq]
+          omega
+    · -- different signs
+      have hc : ((if 128 ≤ fa then 128 else 0) ≠ (if 128 ≤ fb then 128 else 0) ∨ (ta.length + 1 = tb.length + 1 ∧ fa ≠ fb)) := by
+        left
+        by_cases h1 : 128 ≤ fa
+        · have : ¬ 128 ≤ fb := fun h2 => hs ⟨fun _ => h2, fun _ => h1⟩
+          simp [h1, this]
+        · have : 128 ≤ fb := by
+            apply Classical.byContradiction; intro h2; exact hs ⟨fun h => absurd h h1, fun h => absurd h h2⟩
+          simp [h1, this]
+      rw [if_pos hc]
+      have hA := beNat_lt (fa :: ta) ha
+      have hB := beNat_lt (fb :: tb) hb
+      rw [decimalValue_eq, decimalValue_eq]
+      simp only [List.length_cons] at hA hB
+      apply decide_eq_decide_of_iff
+      unfold toI8
+      by_cases h1 : 128 ≤ fa
+      · have h2 : ¬ 128 ≤ fb := fun h2 => hs ⟨fun _ => h2, fun _ => h1⟩
+        simp only [h1, h2, if_true, if_false]
+        split <;> split <;> omega
+      · have h2 : 128 ≤ fb := by
+          apply Classical.byContradiction; intro h2; exact hs ⟨fun h => absurd h h1, fun h => absurd h h2⟩
+        simp only [h1, h2, if_true, if_false]
+        split <;> split <;> omega
+
 /-! ## lexicographic order, `increment` -/
 
 theorem lexLt_irrefl (a : List Nat) : lexLt a a = false := by
